@@ -620,6 +620,10 @@ func (r *vfQsRun) step() bool {
 			fin = true
 			if st.pNext == st.pHi && rnd.Intn(100) < 40 { // the FIN overtakes earlier data
 				off = st.pHi + int64(1+rnd.Intn(200))
+			} else if st.pFin < 0 && st.pHi > 0 && st.pNext == st.pHi && rnd.Intn(100) < 50 {
+				// the FIN comes on a retransmission of bytes the conn already has
+				off = st.pHi - 1 - int64(rnd.Intn(int(min(st.pHi, 1000))))
+				n = int(st.pHi - off)
 			}
 		case z < 20 && st.pFin >= 0: // a frame that ends exactly at the known final size
 			fin = true
@@ -1080,20 +1084,16 @@ func TestVerifQuicStream(t *testing.T) {
 			env.Emit(trace, map[string]any{"e": "panic", "msg": p})
 		}
 	}
-	for i, script := range vfQsDirected {
+	for i, d := range vfQsDirected {
 		trace := n + 1 + i
 		if !env.Only(trace) || env.Hung {
 			continue
 		}
 		if p := vfCatch(func() {
 			synctest.Test(t, func(t *testing.T) {
-				irb := int64(3000)
-				if i == 3 {
-					irb = 5000 // room on the stream, none on the connection
-				}
-				r := vfQsStart(t, env, trace, env.Rand(int64(trace)),
-					vfQsSetup{serverSide, irb, 6000, 65536, 1 << 20, 1 << 20, 1 << 20, 1 << 20, []string{"lb", "rb"}})
-				script(r)
+				rnd := env.Rand(int64(trace))
+				r := vfQsStart(t, env, trace, rnd, d.setup(rnd))
+				d.run(r)
 				r.finish()
 			})
 		}); p != "" {
@@ -1105,9 +1105,102 @@ func TestVerifQuicStream(t *testing.T) {
 
 // vfQsDirected are short scripted scenarios appended to the seeded ones: orders of events the
 // properties single out and that a random script meets only now and then.
-var vfQsDirected = []func(r *vfQsRun){
+type vfQsDirectedScript struct {
+	setup func(rnd *rand.Rand) vfQsSetup
+	run   func(r *vfQsRun)
+}
+
+// vfQsRecvSetup: streams lb and rb, stream receive window irb, connection receive window 6000,
+// no limit worth mentioning on what the conn may send.
+func vfQsRecvSetup(irb int64) func(*rand.Rand) vfQsSetup {
+	return func(*rand.Rand) vfQsSetup {
+		return vfQsSetup{serverSide, irb, 6000, 65536, 1 << 20, 1 << 20, 1 << 20, 1 << 20, []string{"lb", "rb"}}
+	}
+}
+
+// vfQsBlockedSetup: the peer grants a connection-level MAX_DATA of only 6..30 bytes (stream limits
+// are large), two local streams share it.
+func vfQsBlockedSetup(rnd *rand.Rand) vfQsSetup {
+	side := serverSide
+	if rnd.Intn(2) == 0 {
+		side = clientSide
+	}
+	return vfQsSetup{side, 65536, 65536, 65536, int64(6 + rnd.Intn(25)), 1 << 20, 1 << 20, 1 << 20, []string{"lb", "lu"}}
+}
+
+func (r *vfQsRun) appFlush(st *vfQsStream) {
+	err := st.s.Flush()
+	r.emit(map[string]any{"e": "a_flush", "s": st.k, "ok": err == nil})
+	r.settle(nil)
+}
+
+func (r *vfQsRun) newSince(before map[packetNumber]bool) (out []packetNumber) {
+	for _, pn := range r.unackedList() {
+		if !before[pn] {
+			out = append(out, pn)
+		}
+	}
+	return out
+}
+
+func (r *vfQsRun) unackedSet() map[packetNumber]bool {
+	m := map[packetNumber]bool{}
+	for pn := range r.unacked {
+		m[pn] = true
+	}
+	return m
+}
+
+// pings makes the conn send n more (PING) packets and returns their numbers: acknowledging the
+// last of three declares every older unacknowledged packet lost (packet threshold).
+func (r *vfQsRun) pings(n int) []packetNumber {
+	before := r.unackedSet()
+	for i := 0; i < n && !r.dead; i++ {
+		r.tc.conn.ping(appDataSpace)
+		r.settle(nil)
+	}
+	return r.newSince(before)
+}
+
+// blocked writes a and then b more bytes on st (each flushed) and returns the packets each step
+// produced: with a connection credit md < a+b the bytes [md, a+b) stay blocked by MAX_DATA.
+func (r *vfQsRun) blocked(st *vfQsStream, a, b int) (first, second []packetNumber) {
+	s0 := r.unackedSet()
+	r.write(st, a)
+	r.appFlush(st)
+	first = r.newSince(s0)
+	s1 := r.unackedSet()
+	r.write(st, b)
+	r.appFlush(st)
+	second = r.newSince(s1)
+	return first, second
+}
+
+// vfQsFinDup: the peer's data arrives without FIN, then the FIN arrives on a frame [off, total+extra)
+// whose payload (for extra = 0) the conn already has: a retransmission after a lost ACK and a
+// lost FIN-only frame.  The application then reads to the end.
+func vfQsFinDup(total, readFirst int, off func(total int64, rnd *rand.Rand) int64, extra int) func(r *vfQsRun) {
+	return func(r *vfQsRun) {
+		st := r.streams[1]
+		for o := 0; o < total; o += 400 {
+			r.pStream(st, int64(o), min(400, total-o), false)
+		}
+		if readFirst > 0 {
+			r.read(st, readFirst)
+		}
+		o := off(int64(total), r.rnd)
+		r.pStream(st, o, int(int64(total)-o)+extra, true)
+		for i := 0; i < 4 && !r.dead; i++ {
+			if _, res := r.read(st, 4096); res != "ok" {
+				break
+			}
+		}
+	}
+}
+
+var vfQsDirected = []vfQsDirectedScript{
 	// the FIN overtakes earlier data: no EOF before the gap is filled
-	func(r *vfQsRun) {
+	{vfQsRecvSetup(3000), func(r *vfQsRun) {
 		st := r.streams[1]
 		r.pStream(st, 0, 100, false)
 		r.pStream(st, 200, 100, true)
@@ -1116,10 +1209,10 @@ var vfQsDirected = []func(r *vfQsRun){
 		r.pStream(st, 100, 100, false)
 		r.read(st, 4096)
 		r.read(st, 4096)
-	},
+	}},
 	// the packet with the FIN is acknowledged, the data before it is not, then the peer stops the
 	// stream: Close must not report success
-	func(r *vfQsRun) {
+	{vfQsRecvSetup(3000), func(r *vfQsRun) {
 		st := r.streams[0]
 		r.write(st, 3000)
 		r.closeStream(st)
@@ -1128,10 +1221,10 @@ var vfQsDirected = []func(r *vfQsRun){
 		}
 		r.peer(map[string]any{"e": "p_stop", "s": st.k, "code": 9}, st, debugFrameStopSending{id: st.id, code: 9})
 		r.pAck(r.unackedList())
-	},
+	}},
 	// exactly at the advertised stream and connection limits (stream 3000, connection 6000), credit
 	// comes back, then one byte beyond the stream limit only
-	func(r *vfQsRun) {
+	{vfQsRecvSetup(3000), func(r *vfQsRun) {
 		a, b := r.streams[0], r.streams[1]
 		r.pStream(a, 2000, 1000, false) // stream limit reached
 		r.pStream(b, 2000, 1000, false) // connection limit reached
@@ -1145,18 +1238,18 @@ var vfQsDirected = []func(r *vfQsRun){
 		if room := r.advMax - r.peerUsed(); room > b.advWin-b.pHi {
 			r.pStream(b, b.advWin, 1, false)
 		}
-	},
+	}},
 	// one byte beyond the connection limit only
-	func(r *vfQsRun) {
+	{vfQsRecvSetup(5000), func(r *vfQsRun) {
 		a, b := r.streams[0], r.streams[1]
 		r.pStream(a, 1500, 1000, false)
 		r.pStream(b, 2500, 1000, false) // 2500 + 3500 = 6000
 		if a.advWin > a.pHi && r.advMax == r.peerUsed() {
 			r.pStream(a, a.pHi, 1, false)
 		}
-	},
+	}},
 	// a second RESET_STREAM between the highest offset received and the first final size
-	func(r *vfQsRun) {
+	{vfQsRecvSetup(3000), func(r *vfQsRun) {
 		st := r.streams[1]
 		r.pStream(st, 0, 50, false)
 		r.pReset(st, 100, 4)
@@ -1165,7 +1258,78 @@ var vfQsDirected = []func(r *vfQsRun){
 		if !r.dead {
 			r.pReset(st, 70, 4)
 		}
-	},
+	}},
+	// a FIN that first arrives on a pure duplicate: the whole prefix again, ...
+	{vfQsRecvSetup(3000), vfQsFinDup(100, 0, func(int64, *rand.Rand) int64 { return 0 }, 0)},
+	// ... a suffix of it, some of it already read by the application, ...
+	{vfQsRecvSetup(3000), vfQsFinDup(900, 30, func(t int64, rnd *rand.Rand) int64 { return 1 + rnd.Int63n(t-1) }, 0)},
+	// ... a suffix when everything has been read, ...
+	{vfQsRecvSetup(3000), vfQsFinDup(300, 4096, func(t int64, rnd *rand.Rand) int64 { return rnd.Int63n(t) }, 0)},
+	// ... and a FIN frame that overlaps the received prefix and brings new bytes too
+	{vfQsRecvSetup(3000), vfQsFinDup(500, 10, func(t int64, rnd *rand.Rand) int64 { return rnd.Int63n(t) }, 41)},
+	// Blocked by MAX_DATA with flushed never-sent bytes, then the tail of what was sent is lost
+	// (packet threshold) before the peer raises MAX_DATA: the retransmission must not drag the
+	// never-sent bytes along.  Then MAX_DATA is raised and the blocked bytes must go out.
+	{vfQsBlockedSetup, func(r *vfQsRun) {
+		st := r.streams[0]
+		md := int(r.grant)
+		a := 1 + r.rnd.Intn(md-1)
+		first, _ := r.blocked(st, a, md-a+1+r.rnd.Intn(9))
+		if pings := r.pings(3); len(pings) > 0 {
+			r.pAck(append(first, pings[len(pings)-1])) // the packet with [a, md) is now lost
+		}
+		r.tick()
+		r.pMaxData(int64(md + 3))
+		r.pAck(r.unackedList())
+		r.pMaxData(int64(md + 1000))
+	}},
+	// the same with everything that was sent lost
+	{vfQsBlockedSetup, func(r *vfQsRun) {
+		st := r.streams[0]
+		md := int(r.grant)
+		a := 1 + r.rnd.Intn(md-1)
+		r.blocked(st, a, md-a+1+r.rnd.Intn(9))
+		if pings := r.pings(3); len(pings) > 0 {
+			r.pAck(pings[len(pings)-1:])
+		}
+		r.pMaxData(int64(md + 2))
+		r.pAck(r.unackedList())
+		r.pMaxData(int64(md + 1000))
+	}},
+	// the same with a PTO probe instead of loss detection (nothing / the first part acknowledged)
+	{vfQsBlockedSetup, func(r *vfQsRun) {
+		st := r.streams[0]
+		md := int(r.grant)
+		a := 1 + r.rnd.Intn(md-1)
+		first, _ := r.blocked(st, a, md-a+1+r.rnd.Intn(9))
+		if r.rnd.Intn(2) == 0 {
+			r.pAck(first)
+		}
+		r.tick()
+		r.tick()
+		r.pMaxData(int64(md + 1))
+		r.tick()
+		r.pAck(r.unackedList())
+		r.pMaxData(int64(md + 1000))
+	}},
+	// two streams share the connection credit: both hold sent bytes that get lost and blocked ones
+	{vfQsBlockedSetup, func(r *vfQsRun) {
+		x, y := r.streams[0], r.streams[1]
+		md := int(r.grant)
+		a := 1 + r.rnd.Intn(md-1)
+		r.write(x, a)
+		r.appFlush(x)
+		r.blocked(y, md-a, 1+r.rnd.Intn(9)) // y: [0, md-a) sent, the rest blocked
+		r.write(x, 1+r.rnd.Intn(9))         // x: blocked bytes beyond what it has sent
+		r.appFlush(x)
+		if pings := r.pings(3); len(pings) > 0 {
+			r.pAck(pings[len(pings)-1:])
+		}
+		r.tick()
+		r.pMaxData(int64(md + 4))
+		r.pAck(r.unackedList())
+		r.pMaxData(int64(md + 1000))
+	}},
 }
 
 // TestVerifQuicStreamLateRead runs, in its own process, the scripted scenarios in which the
